@@ -281,6 +281,7 @@ def _s1(program, res):
     _s1b_user_chosen_step_names(program, res)
     _s1c_helper_scratch_columns(program, res)
     _s1d_polars_selector_names(program, res)
+    _s1e_helper_dropped_scratch(program, res)
     res.expect_count("C15-S1", "internal column-name sites in the executors", n_ex, 15)
     res.expect_count("C15-S1", "generated view-name sites in the SQL generator", n_sql, 9)
 
@@ -350,6 +351,10 @@ def _s1c_helper_scratch_columns(program, res):
             n += 1
             checked = any(isinstance(cmp_, ast.Compare) and isinstance(cmp_.ops[0], (ast.NotIn, ast.In)) and isinstance(cmp_.left, ast.Constant) and cmp_.left.value == name
                           for t in guards for cmp_ in ast.walk(t.test))
+            # ... or the name is handed to a checking helper of the module together with columns
+            checked = checked or any(isinstance(c, ast.Call) and isinstance(c.func, ast.Name) and c.func.id in mod.functions
+                                     and any(isinstance(a_, (ast.List, ast.Tuple)) and any(isinstance(x, ast.Constant) and x.value == name for x in a_.elts) for a_ in c.args)
+                                     and any(isinstance(a_, (ast.Assert, ast.Raise)) for a_ in ast.walk(mod.functions[c.func.id].node)) for c in ast.walk(f.node))
             if checked:
                 res.ok("C15-S1", f"{f.qualname}: its own column {name!r} is checked against the input's columns")
             else:
@@ -357,6 +362,52 @@ def _s1c_helper_scratch_columns(program, res):
                             f"{f.qualname} adds the column {name!r} to the caller's table without checking the caller's columns: a column of that name is overwritten and the "
                             f"scores computed from it are silently different", node)
     res.expect_count("C15-S1", "scratch columns of the solutions helpers", n, 2)
+
+
+def _s1e_helper_dropped_scratch(program, res):
+    """the helpers of solutions.py that add working columns under caller-supplied names and drop them again at the end (`drop_columns([tie_breaker_column_name …])`)
+    pass every other input column through: a working name has to be checked against *all* columns of the input (`[names …] + list(d.column_names)` all distinct),
+    not only against the columns the plan reads — an unread user column of that name is overwritten and then dropped from the result"""
+    mod = program.modules.get("solutions")
+    if mod is None:
+        return
+    n = 0
+    for f in program.all_functions():
+        if f.module is not mod:
+            continue
+        params = set(f.params())
+        dropped = set()
+        for c in ast.walk(f.node):
+            if isinstance(c, ast.Call) and isinstance(c.func, ast.Attribute) and c.func.attr == "drop_columns" and c.args:
+                for x in ast.walk(c.args[0]):
+                    if isinstance(x, ast.Name) and x.id in params:
+                        dropped.add(x.id)
+        if not dropped:
+            continue
+        res.analysed(f)
+        covered = set()
+        for st in ast.walk(f.node):
+            # [names …] + list(d.column_names), asserted distinct — or the same two things handed to a helper
+            exprs = []
+            if isinstance(st, ast.Assign) and isinstance(st.value, ast.BinOp):
+                exprs = [st.value]
+            elif isinstance(st, (ast.Expr, ast.Assert)):
+                exprs = [c for c in ast.walk(st) if isinstance(c, ast.Call)]
+            for e in exprs:
+                txt = unparse(e)
+                if ".column_names" in txt:
+                    covered |= {x.id for x in ast.walk(e) if isinstance(x, ast.Name) and x.id in dropped}
+        has_assert = any(isinstance(a_, ast.Assert) and "set(" in unparse(a_.test) for a_ in ast.walk(f.node)) or \
+            any(isinstance(c, ast.Call) and isinstance(c.func, ast.Name) and c.func.id in mod.functions and ".column_names" in unparse(c) for c in ast.walk(f.node))
+        for p_ in sorted(dropped):
+            n += 1
+            if p_ in covered and has_assert:
+                res.ok("C15-S1", f"{f.qualname}: the working column `{p_}` is checked against every column of the input before it is added (and dropped again)")
+            else:
+                res.fail_at("C15-S1", f, f"helper-dropped-scratch-unchecked:{f.name}:{p_}",
+                            f"{f.qualname} adds a column under the name `{p_}` and drops it at the end, and no check compares that name with *all* columns of the input: a user column of "
+                            f"that name that the plan does not read is overwritten and then missing from the result, while the same table under another column name keeps it")
+    res.expect_count("C15-S1", "working columns of solutions helpers that are dropped again", n, 4)
 
 
 def _s1d_polars_selector_names(program, res):
